@@ -102,7 +102,7 @@ def evaluate(
 
   stdout = io.StringIO()
   with contextlib.redirect_stdout(stdout):
-    if hasattr(code_block.body[-1], 'value'):   # pytype: disable=attribute-error
+    if isinstance(code_block.body[-1], (ast.Expr, ast.Assign)):   # pytype: disable=attribute-error
       last_expr = code_block.body.pop()  # pytype: disable=attribute-error
       result_vars = [RESULT_KEY]
 
